@@ -14,7 +14,7 @@ RULE = ('constants drawn per class (every NaN class x sign, +-0, +-inf, subnorma
         'distinct = distinct (type, bits, position)')
 
 
-def classes(rnd, n_random):
+def classes(rnd, n_random, full=False):
     """yield (type, bits, class) for all constant classes."""
     out = []
 
@@ -54,6 +54,41 @@ def classes(rnd, n_random):
         add(F32, v, 'special')
     for e in range(-45, 39):
         add(F32, f32_bits(float('1e%d' % e)) if abs(e) < 39 else 0, 'pow10')
+    # every power of two (the literal writer classifies by exponent field; a finite value with an extreme exponent and a zero
+    # significand sits next to the inf/NaN and subnormal classifications), d x 10^e (shortest %g spellings: a single digit with or
+    # without exponent, no decimal point), small integers and halves
+    for k in range(-149, 128):
+        add(F32, f32_bits(2.0 ** k), 'pow2')
+        if k % 4 == 0:
+            add(F32, f32_bits(-(2.0 ** k)), 'pow2')
+    for e in range(-45, 39):
+        for dgt in range(1, 10):
+            try:
+                b_ = f32_bits(float('%de%d' % (dgt, e)))
+            except OverflowError:
+                continue
+            if (b_ & 0x7f800000) != 0x7f800000 and (full or dgt in (1, 2, 4, 8) or (e + dgt) % 3 == 0):
+                add(F32, b_, 'digit-pow10')
+    for v in list(range(0, 21)) + [100, 1000, 65536, 16777216]:
+        add(F32, f32_bits(float(v)), 'small-int')
+        add(F32, f32_bits(v + 0.5), 'half')
+    for k in range(-1074, 1024):
+        if full or k >= 960 or k <= -1010 or k % 16 == 0:
+            add(F64, f64_bits(2.0 ** k), 'pow2')
+            if k % 4 == 0 or k >= 1016:
+                add(F64, f64_bits(-(2.0 ** k)), 'pow2')
+    for e in range(-323, 309):
+        for dgt in range(1, 10):
+            if full or (dgt in (1, 2, 4, 8) and e % 5 == 0) or (e + 7 * dgt) % 41 == 0:
+                try:
+                    b_ = f64_bits(float('%de%d' % (dgt, e)))
+                except OverflowError:
+                    continue
+                if (b_ & 0x7ff0000000000000) != 0x7ff0000000000000:
+                    add(F64, b_, 'digit-pow10')
+    for v in list(range(0, 21)) + [100, 1000, 65536, 2 ** 32, 2 ** 53]:
+        add(F64, f64_bits(float(v)), 'small-int')
+        add(F64, f64_bits(v + 0.5), 'half')
     # floats needing all 9 digits: search
     cnt = 0
     while cnt < 60:
@@ -207,7 +242,7 @@ def main(chk):
     quick = chk.tier == 'quick'
     w2c2 = env.build_translator('plain')
     rnd = env.rng('c07')
-    consts = classes(rnd, 400 if quick else 20000)
+    consts = classes(rnd, 400 if quick else 20000, full=not quick)
     rnd.shuffle(consts)
     per = 1500
     mods = [consts[i:i + per] for i in range(0, len(consts), per)]
